@@ -213,7 +213,10 @@ def part_b(R):
                 continue
             # primitive form expected (short strings): content = data[2:]
             out = data[2:].decode('ascii', 'replace')
-            if out == predicted_canonicaliser(s) and out != s:
+            pred = predicted_canonicaliser(s)
+            # the recorded defect includes the encoder's length window: what falls outside it is refused, never emitted
+            lo, hi = (12, 20) if gen else (10, 14)
+            if out == pred and out != s and lo < len(pred) < hi:
                 f2 = f2 | {'kf:T1'}
             probs = TM.canonical_problems(out, gen)
             if probs:
